@@ -213,6 +213,15 @@ func (spec *Spec) ParsePatterns(ctx context.Context) error {
 			b.Pattern = x
 		}
 	}
+
+	if spec.PatternSyntax == "json" {
+		// The patterns are values now, not JSON texts any
+		// more: a spec that is written out and read back
+		// (or parsed again) must not have a pattern that
+		// happens to be a string parsed a second time.
+		spec.PatternSyntax = ""
+	}
+
 	return nil
 }
 
